@@ -995,7 +995,8 @@ impl<Octs: Octets> PeerUpNotification<Octs> {
     // XXX: 
     pub fn information_tlvs(&self) -> InformationTlvIter {
         let mut parser = Parser::from_ref(&self.octets);
-        parser.advance(6+42).expect("parsed before");
+        // headers, then local address, local port and remote port
+        parser.advance(COFF+20).expect("parsed before");
         BgpOpen::parse(&mut parser).expect("parsed before");
         BgpOpen::parse(&mut parser).expect("parsed before");
 
